@@ -404,6 +404,9 @@ pub fn stream_capi(opt: &HashMap<String, String>) -> i32 {
                     let fam = ["uniform", "lattice", "duppoints", "euclid", "allequal", "negzero", "signed", "subnormal"][rng.below(8) as usize];
                     // single / complete never add: values next to the largest finite one are valid input
                     let fam = if method <= 1 && rng.below(6) == 0 { "maxmag" } else { fam };
+                    // Ward on one entry whose square overflows: the result contains +inf and is still
+                    // exactly what the Rust entry point returns
+                    let fam = if method == 4 && n >= 3 && rng.below(3) == 0 { "hugeone" } else { fam };
                     let v = matrix_f64(&mut rng, n as usize, fam, wide);
                     let bits = to_bits(&v, wide);
                     let out = run_fresh_w(wide, 0, method, n, &bits);
